@@ -5,33 +5,33 @@ From QV Require Import Model.Concat Proofs.ConcatBasics Proofs.ConcatGrid Proofs
 Import ListNotations.
 Open Scope Q_scope.
 
-Lemma compile_structure fx sched il out :
-  il <> [] -> compile fx sched il = Some out ->
+Lemma compile_structure fx gx sched il out :
+  il <> [] -> compile fx gx sched il = Some out ->
   exists sil chs outs,
     scheduled sched il = Some sil /\ build_channels sil = Some chs /\
     NoDup (map fst chs) /\ (forall n l, In (n, l) chs -> l = pulses_of n sil) /\
-    concatenate_pulses fx (map snd chs) = Some outs /\ out = combine (map fst chs) outs.
+    concatenate_pulses fx gx (map snd chs) = Some outs /\ out = combine (map fst chs) outs.
 Proof.
-  intros Hne H. destruct (compile_decompose _ _ _ _ Hne H) as (sil & chs & outs & A & B & C & D).
+  intros Hne H. destruct (compile_decompose _ _ _ _ _ Hne H) as (sil & chs & outs & A & B & C & D).
   destruct (build_channels_spec _ _ B) as [E F].
   exists sil, chs, outs. repeat split; assumption.
 Qed.
 
 Lemma compile_grid_starts_zero sched il out n ts cs :
-  compile true sched il = Some out -> In (n, (ts, cs)) out -> exists r, ts = 0 :: r.
+  compile true true sched il = Some out -> In (n, (ts, cs)) out -> exists r, ts = 0 :: r.
 Proof.
   intros H HI. destruct il as [|i0 il].
   - cbn in H. inversion H; subst. destruct HI.
   - assert (Hne : i0 :: il <> []) by discriminate.
-    destruct (compile_decompose _ _ _ _ Hne H) as (sil & chs & outs & _ & _ & C & ->).
+    destruct (compile_decompose _ _ _ _ _ Hne H) as (sil & chs & outs & _ & _ & C & ->).
     apply in_combine_r in HI. apply In_nth_error in HI. destruct HI as [k Hk].
     exact (all_start_zero _ _ _ _ _ C Hk).
 Qed.
 
 Lemma window_waveform chs outs k l ts cs :
-  concatenate_pulses true chs = Some outs ->
+  concatenate_pulses true true chs = Some outs ->
   nth_error chs k = Some l -> nth_error outs k = Some (ts, cs) ->
-  chain_ord 0 l -> gaps_ok 0 l -> Forall (fun i => is_discrete (p_wave i)) l ->
+  chain_ord 0 l -> gaps_ok (gap_tol true (res_of chs)) 0 l -> Forall (fun i => is_discrete (p_wave i)) l ->
   forall i t, In i l -> p_start i <= t -> t < p_end i ->
   eval_step ts cs t = eval_step (w_ts (p_wave i)) (w_cs (p_wave i)) (t - p_start i).
 Proof.
@@ -41,9 +41,9 @@ Proof.
 Qed.
 
 Lemma zero_elsewhere chs outs k l ts cs :
-  concatenate_pulses true chs = Some outs ->
+  concatenate_pulses true true chs = Some outs ->
   nth_error chs k = Some l -> nth_error outs k = Some (ts, cs) ->
-  chain_ord 0 l -> gaps_ok 0 l -> Forall (fun i => is_discrete (p_wave i)) l ->
+  chain_ord 0 l -> gaps_ok (gap_tol true (res_of chs)) 0 l -> Forall (fun i => is_discrete (p_wave i)) l ->
   forall t, (forall i, In i l -> ~ (p_start i <= t /\ t < p_end i)) -> eval_step ts cs t = 0.
 Proof.
   intros H Hl Ho HC HG HD t Hout.
@@ -91,10 +91,10 @@ Proof.
     split; [unfold p_end, wave_end; cbn; lra|exact I].
 Qed.
 
-Lemma ex_gaps : Forall (gaps_ok 0) ex_chs.
+Lemma ex_gaps : Forall (gaps_ok (gap_tol true (res_of ex_chs)) 0) ex_chs.
 Proof.
   unfold ex_chs, ex_chA, ex_chB. repeat apply Forall_cons; try apply Forall_nil.
-  - split; [left; reflexivity|]. split; [|exact I]. right. unfold p_end, wave_end, tol. cbn. lra.
+  - split; [left; reflexivity|]. split; [|exact I]. right. vm_compute. reflexivity.
   - split; [left; reflexivity|]. split; [|exact I]. left. unfold p_end, wave_end. cbn. lra.
 Qed.
 
@@ -109,7 +109,7 @@ Proof.
 Qed.
 
 Lemma ex_compiles :
-  exists oA oB, concatenate_pulses true ex_chs = Some [oA; oB] /\
+  exists oA oB, concatenate_pulses true true ex_chs = Some [oA; oB] /\
                 eval_step (fst oA) (snd oA) (7 # 2) = 5 /\ eval_step (fst oA) (snd oA) 2 = 0 /\
                 length (fst oA) = 5%nat /\ length (fst oB) = 25%nat.
 Proof. do 2 eexists. split; [vm_compute; reflexivity|]. vm_compute. repeat split; reflexivity. Qed.
